@@ -15,10 +15,9 @@ and stays a pristine zygote.  The history runs in one forked child of it, every
 twin in another forked child."""
 import json
 import os
-import signal
-import traceback
 
 from .. import seams, ops, gen, extfuncs, world as W
+from ..forkutil import fork_call
 from .common import Out, with_, drop_each, REAL_ALL, STUB_ALL
 
 ID = "C19"
@@ -190,48 +189,6 @@ def _warm(root, seed, nfiles, dialects):
             cs.paths_manager.add_named_paths(name="warmup", paths=["$[*][ yes() ]"])
             cs.fast_forward_paths(pathsname="warmup", filename=f"f{f}")
     return True
-
-
-def fork_call(fn, *args, timeout=60):
-    """Runs fn(*args) in a forked child of this (pristine) process."""
-    r, w = os.pipe()
-    pid = os.fork()
-    if pid == 0:
-        code = 0
-        try:
-            os.close(r)
-            try:
-                res = {"ok": fn(*args)}
-            except BaseException as e:  # noqa: BLE001
-                res = {"error": "".join(traceback.format_exception(e))[-3000:]}
-            data = json.dumps(res, default=str).encode()
-            with os.fdopen(w, "wb") as f:
-                f.write(data)
-        except BaseException:  # noqa: BLE001
-            code = 3
-        finally:
-            os._exit(code)
-    os.close(w)
-    try:
-        chunks = []
-        with os.fdopen(r, "rb") as f:
-            while True:
-                b = f.read(65536)
-                if not b:
-                    break
-                chunks.append(b)
-        os.waitpid(pid, 0)
-    except BaseException:
-        try:
-            os.kill(pid, signal.SIGKILL)
-            os.waitpid(pid, 0)
-        except Exception:  # noqa: BLE001
-            pass
-        raise
-    res = json.loads(b"".join(chunks).decode() or '{"error": "child wrote nothing"}')
-    if "error" in res:
-        raise RuntimeError("child failed:\n" + res["error"])
-    return res["ok"]
 
 
 def _populate(world, sc):
